@@ -2,7 +2,7 @@
    Repository.ParseReference and the URL builders of registry/remote/url.go.
    The regular expressions come from Generated/Regexes.v (re-translated from the
    Go source on every run).  The registry check (net/url) is a parameter. *)
-From Oras Require Import Base.Prelude Base.Regex Generated.GC20.
+From Oras Require Import Base.Prelude Base.Regex Generated.GC20 Model.NetURL.
 
 Record reference := mkRef { r_registry : str; r_repository : str; r_reference : str }.
 
@@ -203,24 +203,26 @@ Definition registry_verdict (reg : str) : option bool :=
            end
   end.
 
-(* three-valued parse for the correspondence check *)
+(* three-valued parse for the correspondence check: the registry check is the model of net/url
+   (Model/NetURL.v); unjudged only where the answer depends on netip.ParseAddr *)
 Inductive verdict := VOk (r : reference) | VErr | VUnjudged.
+Definition go_vr : str -> bool := go_valid_registry (fun _ => true).
 Definition parse_verdict (avail : str -> bool) (s : str) : verdict :=
   match split_first c_slash s with
   | None => VErr
   | Some (reg, _) =>
-      match registry_verdict reg with
+      match go_registry_verdict reg with
       | None => VUnjudged
-      | Some v => match parse avail (fun _ => v) s with Some r => VOk r | None => VErr end
+      | Some _ => match parse avail go_vr s with Some r => VOk r | None => VErr end
       end
   end.
 
 Definition repo_parse_verdict (avail : str -> bool) (breg brepo s : str) : verdict :=
   match split_first c_slash s with
-  | None => match repo_parse avail (fun _ => false) breg brepo s with Some r => VOk r | None => VErr end
+  | None => match repo_parse avail go_vr breg brepo s with Some r => VOk r | None => VErr end
   | Some (reg, _) =>
-      match registry_verdict reg with
+      match go_registry_verdict reg with
       | None => VUnjudged
-      | Some v => match repo_parse avail (fun _ => v) breg brepo s with Some r => VOk r | None => VErr end
+      | Some _ => match repo_parse avail go_vr breg brepo s with Some r => VOk r | None => VErr end
       end
   end.
